@@ -310,6 +310,19 @@ def check_C18(chk):
     if zrc != 0 or not zrecs:
         chk.failing_input("creating and reading zero-length regions terminated the process (rc=%s): %s" % (zrc, zerr[-400:]),
                           {"rc": zrc, "stderr": zerr[-800:]}, key="shm:zero-length-abort")
+    # "received data has exactly the sent length": regions whose length sits just above a huge-page multiple, sent through a channel
+    # (the receiver sizes its mapping from the object, the sender from the length it asked for)
+    slines = ["case id=%d len=%d nreg=1 clones=%d fill=%d fork=0 pad=0" % (900 + i, L, i % 2, i % 2) for i, L in enumerate([(2 << 20) + 1, (4 << 20) + 4097, (2 << 20) - 1])]
+    srecs, _, src, serr = C.run_harness(bins["default"], "shm", slines, shim=False, timeout=300)
+    sby = {r["id"]: r for r in srecs if r.get("kind") == "shmcase"}
+    for i, L in enumerate([(2 << 20) + 1, (4 << 20) + 4097, (2 << 20) - 1]):
+        r = sby.get(900 + i)
+        if r is None:
+            chk.failing_input("the large-region scenario did not complete: %s" % serr[-200:], {"len": L}, key="c18shm:%d:none" % L)
+        elif not r["local_ok"] or not r["arrived_ok"] or r["lens"] != [L]:
+            chk.failing_input("a region of %d bytes arrived as a region of %s bytes (contents identical: %s): the bytes beyond the sent length were never written by anybody"
+                              % (L, r["lens"], r["arrived_ok"]), {"len": L, "record": r}, key="c18shm:%d" % L)
+    chk.coverage["large_region_lengths"] = sorted(r["len"] for r in sby.values())
     # a failing mmap (ENOMEM injected by the shim) must end in a panic or an error - never in a write through a null pointer or in a
     # region whose length / contents differ from what was created or sent
     mrecs, _, mrc, merr = C.run_harness(bins["default"], "shm", ["mmapfail"], shim=True, timeout=120)
